@@ -32,6 +32,7 @@ class CidModel(object):
         self.quote = '"'
         self.escape = '"'
         self.skip_initial_space = False
+        self.format_spelling = None  # another spelling of the format's name ("csv" for delimited, other letter cases)
 
     def names(self):
         return [f["name"] for f in self.fields]
@@ -40,7 +41,7 @@ class CidModel(object):
         return [int(f["length"]) for f in self.fields]
 
     def cid_rows(self):
-        rows = [["D", "Format", {"delimited": "Delimited", "fixed": "Fixed", "excel": "Excel", "ods": "ODS"}[self.kind]]]
+        rows = [["D", "Format", self.format_spelling or {"delimited": "Delimited", "fixed": "Fixed", "excel": "Excel", "ods": "ODS"}[self.kind]]]
         if self.kind in ("delimited", "fixed"):
             rows.append(["D", "Encoding", self.encoding])
         if self.kind == "delimited" and (self.quote != '"' or self.escape != '"'):
@@ -73,7 +74,7 @@ class CidModel(object):
         return {"kind": self.kind, "header": self.header, "fields": self.fields, "checks": self.checks,
                 "dec": self.fmt["dec"], "ths": self.fmt["ths"], "allowed": self.allowed_text,
                 "line_delimiter": self.line_delimiter, "sheet": self.sheet, "quote": self.quote, "escape": self.escape,
-                "skip_initial_space": self.skip_initial_space}
+                "skip_initial_space": self.skip_initial_space, "format_spelling": self.format_spelling}
 
     @staticmethod
     def from_json(d):
@@ -85,6 +86,7 @@ class CidModel(object):
         model.quote = d.get("quote", '"')
         model.escape = d.get("escape", '"')
         model.skip_initial_space = d.get("skip_initial_space", False)
+        model.format_spelling = d.get("format_spelling")
         return model
 
 
